@@ -29,6 +29,7 @@ Theorem C10_fail_all : forall e, reachable e -> sees_only_sentinel e ->
   (forall id, finished (futs e id) = true -> futs e' id = futs e id) /\
   (forall id, id < nfut e' -> finished (futs e' id) = true).
 Proof. exact fail_all. Qed.
+Print Assumptions C10_fail_all.
 
 Example C10_fail_all_satisfiable :
   let e := run (new_exec 2 5 0) [Submit; Submit; Submit; Feed; ManagerWake; Feed; Take 0; Take 1; Result 1 7; ManagerWake;
@@ -36,27 +37,32 @@ Example C10_fail_all_satisfiable :
   sees_only_sentinel e /\ futs e 0 = FRunning /\ futs e 1 = FResult 7 /\ futs e 2 = FRunning /\
   futs (step e ManagerWake) 0 = FExc (PoolError TerminatedWorkerError) /\ futs (step e ManagerWake) 1 = FResult 7.
 Proof. vm_compute. repeat split; reflexivity. Qed.
+Print Assumptions C10_fail_all_satisfiable.
 
 (* Whatever happened before, in whatever order: once the manager thread has exited no future is
    unfinished (so a caller waiting on futures is never left waiting by an exited manager) ... *)
 Theorem C10_exit_all_finished : forall e, reachable e -> mgr e = Exited ->
   forall id, id < nfut e -> finished (futs e id) = true.
 Proof. exact exit_all_finished. Qed.
+Print Assumptions C10_exit_all_finished.
 
 (* ... and every later submission raises instead of queueing work nobody will run *)
 Theorem C10_exit_submit_raises : forall e, reachable e -> mgr e = Exited -> exists x, submit e = (e, SRaise x).
 Proof. exact exit_submit_raises. Qed.
+Print Assumptions C10_exit_submit_raises.
 
 (* "or its earlier result": a finished future never changes again, over all continuations *)
 Theorem C10_results_stable : forall e evs id, reachable e -> id < nfut e -> finished (futs e id) = true ->
   futs (run e evs) id = futs e id.
 Proof. exact results_stable. Qed.
+Print Assumptions C10_results_stable.
 
 (* the bookkeeping of futures stays consistent over all event sequences: pending = the unfinished
    futures, without duplicates; hence set_exception/set_result never hit a finished future
    (no InvalidStateError in terminate_broken / process_result_item / flag_executor_shutting_down) *)
 Theorem C10_bookkeeping : forall e, reachable e -> wf e.
 Proof. exact reachable_wf. Qed.
+Print Assumptions C10_bookkeeping.
 
 (* A call one of whose futures was failed (by C10_fail_all: every future unfinished when the death is
    handled) can only end by raising: over all continuations it is either still running with that
@@ -66,6 +72,7 @@ Theorem C10_no_partial : forall evs s, pinv s -> doomed s ->
   (exists evs1 ev evs2 x, evs = evs1 ++ ev :: evs2 /\ outcomes (prun s (evs1 ++ [ev])) = ORaise x :: outcomes s /\
                           outcomes (prun s evs1) = outcomes s).
 Proof. exact no_partial. Qed.
+Print Assumptions C10_no_partial.
 
 (* pinv holds of every pool state reachable from the initial one *)
 Theorem C10_pool_invariant : forall evs mw qc, pinv (prun (init_pool mw qc) evs).
@@ -74,6 +81,7 @@ Proof.
   revert P0. generalize (init_pool mw qc). induction evs as [|ev t IH]; intros s P; [exact P|].
   apply IH. apply pinv_step. exact P.
 Qed.
+Print Assumptions C10_pool_invariant.
 
 Example C10_no_partial_satisfiable :
   let s := prun (init_pool 2 5) [CallBegin 3; Dispatch; Dispatch; Dispatch; Ex Feed; Ex ManagerWake; Ex Feed;
@@ -84,6 +92,7 @@ Proof.
   cbn zeta. split; [|vm_compute; reflexivity].
   eexists _, _, 0, _. vm_compute. repeat split; try reflexivity. left; reflexivity.
 Qed.
+Print Assumptions C10_no_partial_satisfiable.
 
 (* get_reusable_executor never hands back a broken or shut-down executor: when it returns, the
    executor is pristine (not broken, not shut down, no process yet, no fault), its pids start beyond
@@ -94,6 +103,7 @@ Theorem C10_heal : forall s e s', cur s = Some e -> (broken e <> None \/ shutdow
              broken e' = None /\ shutdown e' = false /\ procs e' = [] /\ faulted e' = false /\ mgr e' = NotStarted /\
              mgr_gone e = true.
 Proof. exact heal. Qed.
+Print Assumptions C10_heal.
 
 (* REFUTED instant (finding F27): a worker killed after writing part of its result message.
    Full statement that fails:  forall reachable e with a dead worker in procs, the manager eventually
@@ -105,3 +115,4 @@ Theorem C10_midsend_refuted :
   reachable e /\ (exists p, wk e p = WDead /\ In p (procs e)) /\
   forall evs, mgr (run e evs) = Stuck /\ futs (run e evs) 0 = FRunning /\ broken (run e evs) = broken e.
 Proof. exact midsend_refuted. Qed.
+Print Assumptions C10_midsend_refuted.
